@@ -28,6 +28,7 @@ noncomputable instance instFloatLikeReal : FloatLike ℝ where
   ceil := fun x => (⌈x⌉ : ℝ)
   round := fun x => ((_root_.round x : ℤ) : ℝ)
   fract := fun x => Int.fract x
+  isNormal := fun x => decide ((1:ℝ) / 2 ^ 1022 ≤ |x|)
   sqrt := Real.sqrt
   fmax := max
   toUsize := fun x => ⌊x⌋₊
@@ -86,6 +87,7 @@ noncomputable instance instFloatSpecReal : FloatSpec ℝ where
     · rintro ⟨_, _, z, hz⟩; exact ⟨z, by linarith⟩
     · rintro ⟨n, hn⟩; exact ⟨le_refl _, by norm_num, n, by rw [hn]; ring⟩⟩
   fmax_spec := fun _ _ => ⟨trivial, rfl⟩
+  isNormal_spec := fun {a} _ => by show decide ((1:ℝ) / 2 ^ 1022 ≤ |a|) = true ↔ _; simp
   flt_spec := fun {a b} _ _ => by show decide (a < b) = true ↔ _; simp
   fle_spec := fun {a b} _ _ => by show decide (a ≤ b) = true ↔ _; simp
   feq_spec := fun {a b} _ _ => by show decide (a = b) = true ↔ _; simp
